@@ -29,6 +29,7 @@ RULE = (
     "non-trivial = two records of one type reach the same scope, or a record is made outside / "
     "after completion, or a merge raises"
 )
+RULE += ' Round 19: 34 / 40 children under one root.'
 RULE += ' Round 16: the one-child programs also with the child scope left by an ordinary exception of its body (handled by the surrounding code).'
 RULE += ' Rounds 10-13: WIDE scopes (4-9 (12) children, one or two in tasks outliving their siblings); scope objects created in one order and entered in another; own trace id / logger on nested scopes; a merge callable switched between two view requests.'
 ASSUMPTIONS = [
@@ -154,6 +155,11 @@ def _wide_programs(tier: str):
                 yield {"wide": k, "tasks": list(pair), "how": "create"}
                 if k == 4:
                     yield {"wide": k, "tasks": list(pair), "how": "spawn"}
+    # VERY wide: 34 / 40 children one after the other (the last one may run in a task of its own)
+    for k in (34, 40):
+        yield {"wide": k, "tasks": [], "how": "create"}
+        yield {"wide": k, "tasks": [k - 1], "how": "create"}
+        yield {"wide": k, "tasks": [k - 1], "how": "spawn"}
     for k in (2, 3, 5):
         yield {"wide": k, "tasks": [], "how": "create", "same_label": True}
         yield {"wide": k, "tasks": [0], "how": "create", "same_label": True}
@@ -178,7 +184,7 @@ def _wide(program, ch: Chooser) -> Result:  # noqa: C901, PLR0915
     events: list = []
     created: dict[str, int] = {}
     cbs: dict[str, dict] = {}
-    letters = "abcdefghijklmnop"
+    letters = "abcdefghijklmnop" + "".join(chr(0x3B1 + i) for i in range(24))  # 40 one-character labels with upper-case forms
     raised: list = []
 
     def make_cb(name: str, is_root: bool):
